@@ -246,7 +246,10 @@ def run_env_child(seed: int, profile: dict):
 
     env = dict(os.environ, PYTHONHASHSEED="0", PYTHONDONTWRITEBYTECODE="1", **profile)
     code = f"import sys; sys.path[:0] = [{TARGET!r}, {VERIF!r}]; from checks import c20; c20.env_child({seed})"
-    r = subprocess.run([sys.executable, "-c", code], env=env, capture_output=True, text=True, timeout=600)
+    from mc import budget as _b
+
+    with _b.idle_ok():
+        r = subprocess.run([sys.executable, "-c", code], env=env, capture_output=True, text=True, timeout=600)
     line = next((ln for ln in r.stdout.splitlines() if ln.startswith("CHILDRESULT ")), None)
     if line is None:
         raise RuntimeError(f"env child failed: {r.stderr[-400:]}")
